@@ -54,6 +54,34 @@ fn inputs(ev: Ev, d1: usize, d2: usize) -> Vec<String> {
     for c in corpus() {
         v.push(c.to_string());
     }
+    // every function name and alias of the evaluator on special arguments (and pairs of them)
+    let special = ["0", "1", "2", "0.5", "(-1)", "(-0.5)", "(1/0)", "(-1/0)", "(0/0)", "(-0)", "20", "171", "1000000", "@"];
+    let mut seen: Vec<&str> = Vec::new();
+    for (name, f) in refmodel::vocab::func_names(ev) {
+        if seen.contains(name) {
+            continue;
+        }
+        seen.push(name);
+        match f.arity() {
+            refmodel::vocab::Arity::Fixed(1) => {
+                for a in special {
+                    v.push(format!("{}({})", name, a));
+                }
+            }
+            _ => {
+                for a in special {
+                    for b in special {
+                        v.push(format!("{}({},{})", name, a, b));
+                    }
+                }
+            }
+        }
+    }
+    for a in special {
+        for post in ["!", "°", "rad", "²"] {
+            v.push(format!("{}{}", a, post));
+        }
+    }
     v
 }
 
